@@ -5,14 +5,7 @@ Local Open Scope N_scope.
 
 (* ------------------------------------------------------ finite sweeps *)
 
-Lemma forallb_range (P : N -> bool) (k : nat) :
-  forallb P (map N.of_nat (seq 0 k)) = true ->
-  forall n, n < N.of_nat k -> P n = true.
-Proof.
-  intros H n Hn. rewrite forallb_forall in H. apply H.
-  rewrite in_map_iff. exists (N.to_nat n). split; [apply N2Nat.id|].
-  apply in_seq. lia.
-Qed.
+
 
 Definition b0_ok (fin : bool) (op : N) : bool :=
   let b0 := op + (if fin then 128 else 0) in
